@@ -11,6 +11,11 @@ job = {dirs: [abs dir,...], paths: [abs input path,...], files: {id: abs path} (
 ops:  ["newclient", caching] ["get", ci, p] ["getdict", ci, p, c] ["write", p, c] ["delete", p]
       ["chdir", d] ["setargv", [token,...]] ["cli", p] ["getmix", ci, p, q, [[name, value],...], c]
       ["hip", k, p]   (k = 1: HipRaXClient, 2: HipRaClient; a new client and a new HipRaInputParameters per request)
+      ["mc", prog, q, n, [[name, distribution, a, b],...], [p1..pn], c]   n Monte-Carlo iterations on base file q:
+            geophires_monte_carlo.MC_GeoPHIRES3.work_package called directly (what a pool worker executes); prog
+            "g" | 1 | 2 selects the embedded client.  Each iteration writes its own input file (path p_j, content c =
+            base text + sampled lines), runs it through a NEW client and deletes it; the client class is replaced by
+            a recording subclass, so cwd/argv around the embedded call and the result it returned are observed.
 A "getdict" builds GeophiresInputParameters(<dict of content c>): the client library creates its own uuid-named
 file, which becomes path p of the session (the model sees Write p c; Get ci p).  A "getmix" builds
 GeophiresInputParameters(from_file_path=<path q>, params=<overrides>): the library's file (path p) holds the base
@@ -104,6 +109,53 @@ def run_session(job):
                 out.append(['O', hit[0]] if hit else ['U', 999])
         return out
 
+    def run_mc(op):
+        import argparse
+        import geophires_monte_carlo.MC_GeoPHIRES3 as MC
+        prog, q, n, input_values, new_ids = op[1], op[2], op[3], op[4], op[5]
+        recs = []
+
+        def recording(base, method, digest):
+            def call(self, ip):
+                pre, o = (os.getcwd(), list(sys.argv)), None
+                try:
+                    r = getattr(base, method)(self, ip)
+                    o = digest(r)
+                    return r
+                except BaseException as e:  # noqa
+                    o = ['raised', type(e).__name__, str(e)[:200]]
+                    raise
+                finally:
+                    recs.append({'pre': pre, 'post': (os.getcwd(), list(sys.argv)), 'out': o, 'path': str(ip.as_file_path())})
+            return type('Recording' + base.__name__, (base,), {method: call})
+
+        def hip_digest(r):
+            text = open(r.output_file_path, encoding='UTF-8').read()
+            return ['ret', sha(json.dumps(r.result, sort_keys=True, default=str)), False, sha(MASK.sub(r'\1 <masked>', text)), None]
+
+        saved = (MC.GeophiresXClient, MC.HipRaXClient, MC.HipRaClient)
+        MC.GeophiresXClient = recording(saved[0], 'get_geophires_result',
+                                        lambda r: ['ret', digest_result(r), False, *digest_files(r.output_file_path)])
+        MC.HipRaXClient = recording(saved[1], 'get_hip_ra_result', hip_digest)
+        MC.HipRaClient = recording(saved[2], 'get_hip_ra_result', hip_digest)
+        args = argparse.Namespace(Input_file=paths[q], Code_File={'g': 'GEOPHIRESv3.py', 1: 'hip_ra_x.py', 2: 'HIP_RA.py'}[prog])
+        outputs = ['Average Net Electricity Production'] if prog == 'g' else ['Reservoir Volume (reservoir)']
+        try:
+            for j in range(n):
+                before = len(recs)
+                try:
+                    MC.work_package([input_values, outputs, args, os.path.join(job['tmp'], 'mc_result.txt'), '', sys.executable])
+                except BaseException as e:  # noqa  (a failing embedded run aborts the work package)
+                    if len(recs) == before:
+                        recs.append({'pre': (os.getcwd(), list(sys.argv)), 'post': (os.getcwd(), list(sys.argv)), 'path': '',
+                                     'out': ['raised', type(e).__name__, 'before the embedded client was called: ' + str(e)[:150]]})
+        finally:
+            MC.GeophiresXClient, MC.HipRaXClient, MC.HipRaClient = saved
+        for rec, pid in zip(recs, new_ids):
+            paths[pid] = rec['path']
+        return [{'cb': enc_dir(r['pre'][0]), 'ab': enc_argv(r['pre'][1]), 'ca': enc_dir(r['post'][0]), 'aa': enc_argv(r['post'][1]),
+                 'cwd_after': r['post'][0], 'argv_after': [str(a) for a in r['post'][1]], 'out': r['out']} for r in recs]
+
     os.chdir(dirs[job['cwd']])
     sys.argv = list(job['argv'])
     clients, results, obs = [], [], []
@@ -161,6 +213,8 @@ def run_session(job):
                     out = ['ret', sha(json.dumps(r.result, sort_keys=True, default=str)), False, sha(MASK.sub(r'\1 <masked>', text)), None]
                 except BaseException as e:  # noqa
                     out = ['raised', type(e).__name__, str(e)[:200]]
+            elif kind == 'mc':
+                out = ['mc', run_mc(op)]
             elif kind == 'write':
                 Path(paths[op[1]]).parent.mkdir(parents=True, exist_ok=True)
                 Path(paths[op[1]]).write_text(contents[op[2]], encoding='UTF-8')
